@@ -647,7 +647,19 @@ func (ev *Evaluator) Eval(e ast.Expr, env *Env) Value {
 			if v, ok := b.Get(idx); ok {
 				return v
 			}
+			if _, bad := idx.(Unknown); !bad {
+				if z := ev.zeroOrNil(ev.Info.TypeOf(x)); z != nil {
+					return z // reading a missing key yields the zero value
+				}
+			}
 			return nil
+		case Nil:
+			// reading from a nil map is legal and yields the zero value
+			if _, isMap := ev.Info.TypeOf(x.X).Underlying().(*types.Map); isMap {
+				if z := ev.zeroOrNil(ev.Info.TypeOf(x)); z != nil {
+					return z
+				}
+			}
 		}
 		return ev.unk(x, "index on non-table")
 	case *ast.StarExpr:
@@ -868,6 +880,18 @@ func (ev *Evaluator) evalBinary(x *ast.BinaryExpr, env *Env) Value {
 		}
 	}
 	return ev.unk(x, "binary "+x.Op.String()+" on non-constant operands")
+}
+
+// zeroOrNil: the zero value of t, with reference types as Nil.
+func (ev *Evaluator) zeroOrNil(t types.Type) Value {
+	if t == nil {
+		return nil
+	}
+	switch t.Underlying().(type) {
+	case *types.Map, *types.Slice, *types.Pointer, *types.Signature, *types.Interface:
+		return Nil{}
+	}
+	return ev.zero(t)
 }
 
 func (ev *Evaluator) zero(t types.Type) Value {
@@ -1387,6 +1411,16 @@ func (ev *Evaluator) stmt(s ast.Stmt, env *Env, fr *Frame) ctl {
 		if len(x.Lhs) == 2 && len(x.Rhs) == 1 {
 			// comma-ok map lookup
 			if ix, ok := x.Rhs[0].(*ast.IndexExpr); ok {
+				if _, isNilMap := ev.Eval(ix.X, env).(Nil); isNilMap {
+					if mt, ok := ev.Info.TypeOf(ix.X).Underlying().(*types.Map); ok {
+						if z := ev.zeroOrNil(mt.Elem()); z != nil {
+							if c := ev.assign(x.Lhs[0], z, env, x.Tok == token.DEFINE); c != ctlNone {
+								return c
+							}
+							return ev.assign(x.Lhs[1], Bool{false}, env, x.Tok == token.DEFINE)
+						}
+					}
+				}
 				if m, ok := ev.Eval(ix.X, env).(*Map); ok {
 					k := ev.Eval(ix.Index, env)
 					if _, bad := k.(Unknown); !bad {
